@@ -210,3 +210,42 @@ func TestRegression_FlushOfEmptyStoreWedgesLaterFlushes(t *testing.T) {
 		}
 	}
 }
+
+// A flush of the shard index that runs to completion inside a lookup, between the moment the lookup
+// takes the snapshot of the inverted (forward) family and the moment it reads the memory stores:
+// the flush commits the new file and drops the frozen store, the lookup sees the old files and an
+// empty memory, i.e. none of the series indexed since the previous flush (sigSnapshotBeforeMemory,
+// index/metric_index_database.go invertedIndex.findSeriesIDsByKeys / getSeriesIDs,
+// forwardIndex.findSeriesIDsForTag / GetGroupingContext; repaired in /repo by df632b5: memory is read before the
+// snapshot is taken, the dictionary stores read memory and pick the snapshot in one critical section).
+func TestRegression_FlushBetweenSnapshotAndMemoryRead(t *testing.T) {
+	for _, c := range []struct{ target, cond, want string }{
+		{"index/inverted", "host in ('a','c')", "u0001,u0003,u0004"}, // posting lists of a and c
+		{"index/forward", "host in ('a','c')", "u0001,u0003,u0004"},  // group by uid: scanners of the forward index
+		{"index/forward", "host != 'b'", "u0001,u0003,u0004"},        // series having the key
+	} {
+		w := newWorld(t, []models.ShardID{0}, 1)
+		w.write([]*seriesT{mkSeries("m", 1, "host", "a"), mkSeries("m", 2, "host", "b")})
+		w.flush(flushAll, w.shards)
+		w.write([]*seriesT{mkSeries("m", 3, "host", "a"), mkSeries("m", 4, "host", "c")})
+		plan := &nestedPlan{Target: c.target, Op: "getSnapshot", Before: false, Ops: []nestedOp{{Kind: nFlush, Flush: flushMetaIndex, Shards: w.shards}}}
+		stats := &caseStats{classes: map[string]bool{}}
+		n := 0
+		var got string
+		var err error
+		w.withSeams([]*nestedPlan{plan}, w.nestedRunner(nil, nil, nil, stateInfo{}, stats, &n), func() { got, err = w.uids("m", c.cond) })
+		after, err2 := w.uids("m", c.cond)
+		w.close()
+		if err != nil || err2 != nil {
+			t.Fatalf("query failed: %v %v", err, err2)
+		}
+		if !plan.fired || plan.deferred || plan.overlapped {
+			t.Fatalf("harness: the flush did not run inside the lookup at %s (fired=%v deferred=%v overlapped=%v)", c.target, plan.fired, plan.deferred, plan.overlapped)
+		}
+		if after != c.want {
+			t.Fatalf("after the flush: %s -> %q, want %q", c.cond, after, c.want)
+		}
+		verdict(t, sigSnapshotBeforeMemory, got != c.want,
+			fmt.Sprintf("index flush completed inside the lookup at %s: %s selected %q, brute force %q", plan.at, c.cond, got, c.want))
+	}
+}
